@@ -280,6 +280,92 @@ func (f *Fn) sameExpr(a, b ast.Expr) bool {
 	return f.sameTypeExpr(a, b)
 }
 
+// SameValue is SameExpr for expressions evaluated at different program points:
+// two occurrences of a local variable denote the same value only if the same
+// single definition reaches both (or the variable is never reassigned).
+func (f *Fn) SameValue(a, b ast.Expr) bool {
+	if !f.SameExpr(a, b) {
+		return false
+	}
+	ok := true
+	var ia, ib []*ast.Ident
+	collect := func(root ast.Expr, out *[]*ast.Ident) {
+		ast.Inspect(root, func(n ast.Node) bool {
+			if id, isId := n.(*ast.Ident); isId {
+				if v, isVar := f.ObjOf(id).(*types.Var); isVar && !v.IsField() && v.Pkg() != nil && v.Parent() != v.Pkg().Scope() {
+					*out = append(*out, id)
+				}
+			}
+			return true
+		})
+	}
+	collect(a, &ia)
+	collect(b, &ib)
+	if len(ia) != len(ib) {
+		return true // matched through definitions: structural equality decided it
+	}
+	for i := range ia {
+		if f.ObjOf(ia[i]) != f.ObjOf(ib[i]) || ia[i] == ib[i] {
+			continue
+		}
+		da, db := f.LocalDef(ia[i]), f.LocalDef(ib[i])
+		if da != db {
+			ok = false
+		}
+		if da == nil && db == nil && f.reassigned(f.ObjOf(ia[i])) {
+			ok = false
+		}
+	}
+	return ok
+}
+
+// reassigned: the variable has more than one assignment in the function (a
+// parameter or a variable defined once is never reassigned).
+func (f *Fn) reassigned(o types.Object) bool {
+	if f.nAssign == nil {
+		f.nAssign = map[types.Object]int{}
+		ast.Inspect(f.Body, func(n ast.Node) bool {
+			switch s := n.(type) {
+			case *ast.AssignStmt:
+				for _, l := range s.Lhs {
+					if id, ok := l.(*ast.Ident); ok {
+						if o := f.ObjOf(id); o != nil {
+							f.nAssign[o]++
+						}
+					}
+				}
+			case *ast.IncDecStmt:
+				if id, ok := s.X.(*ast.Ident); ok {
+					if o := f.ObjOf(id); o != nil {
+						f.nAssign[o] += 2
+					}
+				}
+			case *ast.RangeStmt:
+				for _, e := range []ast.Expr{s.Key, s.Value} {
+					if id, ok := e.(*ast.Ident); ok {
+						if o := f.ObjOf(id); o != nil {
+							f.nAssign[o] += 2 // a new value every iteration
+						}
+					}
+				}
+			case *ast.ValueSpec:
+				for _, id := range s.Names {
+					if o := f.Info().Defs[id]; o != nil {
+						f.nAssign[o]++
+					}
+				}
+			}
+			return true
+		})
+	}
+	_, isParam := o.(*types.Var)
+	n := f.nAssign[o]
+	if isParam && n == 0 {
+		return false
+	}
+	return n > 1
+}
+
 // sameTypeExpr: both are type expressions denoting identical types.
 func (f *Fn) sameTypeExpr(a, b ast.Expr) bool {
 	ta, oka := f.Info().Types[a]
@@ -572,8 +658,16 @@ func (f *Fn) LocalDef(id *ast.Ident) ast.Expr {
 	g := f.Graph()
 	site := g.FactSite(id)
 	rhs, idx, tuple := g.defOf(id, site)
-	if rhs == nil || tuple || idx != 0 {
+	if rhs == nil || idx != 0 {
 		return nil
+	}
+	if tuple {
+		// `v, ok := m[k]`, `v, ok := x.(T)`: v is the value of the expression; calls are not
+		switch ast.Unparen(rhs).(type) {
+		case *ast.IndexExpr, *ast.TypeAssertExpr:
+		default:
+			return nil
+		}
 	}
 	// a definition that mentions the variable itself (x = x + 1) is not a definition to see through
 	if f.Mentions(rhs, v) {
@@ -694,7 +788,7 @@ func (g *Graph) resolveCall(e ast.Expr) *ast.CallExpr {
 // (directly, or through a boolean local assigned from it). argOK may inspect the
 // call's arguments.
 func (g *Graph) GCallBool(val bool, argOK func(*ast.CallExpr) bool, names ...string) Guard {
-	return func(ft Fact) bool {
+	return GFunc(func(ft Fact) bool {
 		if ft.Val != val {
 			return false
 		}
@@ -703,13 +797,13 @@ func (g *Graph) GCallBool(val bool, argOK func(*ast.CallExpr) bool, names ...str
 			return false
 		}
 		return argOK == nil || argOK(c)
-	}
+	})
 }
 
 // GCallErrNil: the fact states that the error result of a call to `names` is
 // nil (`f() == nil`, or `err == nil` where err was assigned from the call).
 func (g *Graph) GCallNil(isNil bool, argOK func(*ast.CallExpr) bool, names ...string) Guard {
-	return func(ft Fact) bool {
+	return GFunc(func(ft Fact) bool {
 		x, y, eq, ok := EqParts(ft)
 		if !ok {
 			return false
@@ -731,12 +825,12 @@ func (g *Graph) GCallNil(isNil bool, argOK func(*ast.CallExpr) bool, names ...st
 			return false
 		}
 		return argOK == nil || argOK(c)
-	}
+	})
 }
 
 // GExprNil: the fact states that expression matching pred is (not) nil.
 func (g *Graph) GExprNil(isNil bool, pred func(ast.Expr) bool) Guard {
-	return func(ft Fact) bool {
+	return GFunc(func(ft Fact) bool {
 		x, y, eq, ok := EqParts(ft)
 		if !ok || eq != isNil {
 			return false
@@ -748,12 +842,12 @@ func (g *Graph) GExprNil(isNil bool, pred func(ast.Expr) bool) Guard {
 			return pred(y)
 		}
 		return false
-	}
+	})
 }
 
 // GBool: the fact states that an expression matching pred has value val.
 func GBool(val bool, pred func(ast.Expr) bool) Guard {
-	return func(ft Fact) bool { return ft.Val == val && pred(ast.Unparen(ft.E)) }
+	return GFunc(func(ft Fact) bool { return ft.Val == val && pred(ast.Unparen(ft.E)) })
 }
 
 // GCompare: the fact is a comparison `l op r` (or mirrored) holding with value
@@ -763,7 +857,7 @@ func GCompare(val bool, op token.Token, l, r func(ast.Expr) bool) Guard {
 		token.GEQ: token.LEQ, token.EQL: token.EQL, token.NEQ: token.NEQ}
 	neg := map[token.Token]token.Token{token.LSS: token.GEQ, token.GTR: token.LEQ, token.LEQ: token.GTR,
 		token.GEQ: token.LSS, token.EQL: token.NEQ, token.NEQ: token.EQL}
-	return func(ft Fact) bool {
+	return GFunc(func(ft Fact) bool {
 		be, ok := ast.Unparen(ft.E).(*ast.BinaryExpr)
 		if !ok {
 			return false
@@ -786,7 +880,7 @@ func GCompare(val bool, op token.Token, l, r func(ast.Expr) bool) Guard {
 			return true
 		}
 		return false
-	}
+	})
 }
 
 // IsLenOf builds a predicate: e is len(x) with x satisfying pred.
@@ -809,7 +903,22 @@ func (f *Fn) IsLenOf(pred func(ast.Expr) bool) func(ast.Expr) bool {
 
 // IsObj builds a predicate: e is an identifier/selector resolving to o.
 func (f *Fn) IsObj(o types.Object) func(ast.Expr) bool {
-	return func(e ast.Expr) bool { return o != nil && f.ObjOf(e) == o }
+	return func(e ast.Expr) bool { return f.Denotes(e, o) }
+}
+
+// Denotes reports whether e is the object o, directly or through temporaries
+// (`t := o; ... t`), see LocalDef.
+func (f *Fn) Denotes(e ast.Expr, o types.Object) bool {
+	if o == nil || e == nil {
+		return false
+	}
+	if f.ObjOf(e) == o {
+		return true
+	}
+	if r := f.Resolve(e); r != e && f.ObjOf(r) == o {
+		return true
+	}
+	return false
 }
 
 // IsInt builds a predicate: e is the integer constant v.
